@@ -102,7 +102,7 @@ def _worker(args):
                     if ok:
                         valid = {o["name"] for o in p["obligations"] if o["status"] == "valid"}
                         notvalid = {o["name"] for o in p["obligations"] if o["status"] != "valid"}
-                        bad = [f for f in out["failed"] if f in valid and f not in notvalid and not (res["relaxed"] and f.startswith("CANARY"))]
+                        bad = [f for f in out["failed"] if f in valid and f not in notvalid and not f.startswith("CANARY")]  # a canary is a reachability twin, not a claim
                         if bad:
                             ok, why = False, f"checks proved valid fail concretely: {bad}"
                 # witness-only checks (code that no proxy can enter): a concrete failure on a solver-chosen model
